@@ -225,7 +225,7 @@ def b_max(ex, st, args, kwargs, node, is_max=True):
     v = args[0]
     s = ex.iter_seq(v, st, node)
     n = s.length
-    if isinstance(n, int) and keyf is None:
+    if isinstance(n, int) and keyf is None and n <= LONG:
         if n == 0:
             ex.safety(st, "max-empty", False, node)
             return 0
@@ -241,6 +241,7 @@ def b_max(ex, st, args, kwargs, node, is_max=True):
     j = z3.Int(uid("j"))
     ej = to_z3(s.get(j))
     st.pc.append(z3.And(w >= 0, w < to_z3(n), to_z3(s.get(w)) == r))
+    ex.const_cache.setdefault(("witness", r.get_id()), []).append((s, w))
 
     def keyof(x, quiet):
         if keyf is None:
@@ -260,6 +261,13 @@ def b_max(ex, st, args, kwargs, node, is_max=True):
         st.pc.append(z3.And(ii >= 0, ii < to_z3(n)))
         keyof(s.get(ii), False)
         del st.pc[pc0:]
+    if s.tag and s.tag[0] == "slice" and keyf is None:
+        # state the bound over the indices of the underlying sequence (a usable trigger: base[g], no arithmetic inside)
+        base, off = s.tag[1], to_z3(s.tag[2])
+        eg = to_z3(base.get(j))
+        cmpz = ex.compare(ast.LtE() if is_max else ast.GtE(), eg, r, st, node)
+        st.pc.append(_forall_pats([j], z3.Implies(z3.And(j >= off, j < off + to_z3(n)), cmpz), [[eg]]))
+        return r
     kr, kj = keyof(r, True), keyof(s.get(j), True)
     cmpz = ex.compare(ast.LtE() if is_max else ast.GtE(), kj, kr, st, node)
     cmpz = z3.BoolVal(cmpz) if isinstance(cmpz, bool) else cmpz
@@ -271,6 +279,7 @@ def b_min(ex, st, args, kwargs, node):
     return b_max(ex, st, args, kwargs, node, is_max=False)
 
 
+LONG = 64  # concrete-length sequences longer than this are handled by the quantified models, not unrolled
 SUMF_COUNTER = [0]
 
 
@@ -278,7 +287,7 @@ def b_sum(ex, st, args, kwargs, node):
     s = ex.iter_seq(args[0], st, node)
     n = s.length
     start = args[1] if len(args) > 1 else 0
-    if isinstance(n, int):
+    if isinstance(n, int) and n <= LONG:
         out = start
         for k in range(n):
             out = ex.binop(ast.Add(), out, s.get(k), st, node)
@@ -289,6 +298,9 @@ def b_sum(ex, st, args, kwargs, node):
 def seq_sum(ex, st, s, lo, hi):
     """Sum_{lo<=k<hi} s[k] as a prefix-sum spec function with its unfold axiom."""
     used(ex, "sum/dot over a symbolic range: prefix-sum function with PS(0)=0, PS(k+1)=PS(k)+a[k]")
+    if s.tag and s.tag[0] == "slice":
+        base, off = s.tag[1], s.tag[2]
+        return seq_sum(ex, st, base, to_z3(off) + to_z3(lo), to_z3(off) + to_z3(hi))
     key = ("prefix", id(s))
     if key in ex.const_cache:
         ps = ex.const_cache[key][0]
@@ -707,14 +719,22 @@ def do_slice(ex, st, o, lo, hi, node):
         w = z3.If(bz < 0, bz + nz, bz)
         return z3.If(w < 0, z3.IntVal(0), z3.If(w > nz, nz, w))
 
-    l = norm(lo, z3.IntVal(0))
-    h = norm(hi, nz)
-    ln = z3.simplify(z3.If(h > l, h - l, z3.IntVal(0)))
+    lo_z = z3.IntVal(0) if lo is None else to_z3(lo)
+    hi_z = nz if hi is None else to_z3(hi)
+    if ex.provable(st, z3.And(lo_z >= 0, lo_z <= hi_z, hi_z <= nz)):
+        # bounds are inside the list on this path: no wrap, no clamp
+        l, h = z3.simplify(lo_z), z3.simplify(hi_z)
+    else:
+        l = norm(lo, z3.IntVal(0))
+        h = norm(hi, nz)
+    ln = z3.simplify(h - l) if ex.provable(st, h >= l) else z3.simplify(z3.If(h > l, h - l, z3.IntVal(0)))
     l = z3.simplify(l)
     s = o.as_seq()
     if z3.is_int_value(ln) and z3.is_int_value(l):
         lc, ll = ln.as_long(), l.as_long()
-        return PyList([s.get(ll + k) for k in range(lc)], np=o.np)
+        if lc <= LONG:
+            return PyList([s.get(ll + k) for k in range(lc)], np=o.np)
+        return PyList(Seq(lc, lambda i: s.get(ll + i if isinstance(i, int) else ll + to_z3(i)), np=o.np, tag=("slice", s, ll)), np=o.np)
     return PyList(Seq(ln, lambda i: s.get(l + to_z3(i)), np=o.np, tag=("slice", s, l)), np=o.np)
 
 
@@ -828,7 +848,7 @@ class UFunM(UFun):
 
 def list_index(ex, st, lst: PyList, x, node):
     """list.index(x): the first position holding a value == x; ValueError when absent (safety obligation)."""
-    if lst.is_conc():
+    if lst.is_conc() and len(lst.v) <= LONG:
         items = lst.v
         eqs = [ex.equals(y, x) for y in items]
         if all(isinstance(e, bool) for e in eqs):
@@ -843,13 +863,19 @@ def list_index(ex, st, lst: PyList, x, node):
             out = z3.If(zs[k], z3.IntVal(k), to_z3(out))
         return out
     used(ex, "list.index: first position with ==; ValueError when absent")
-    s = lst.v
+    s = lst.as_seq()
     nz = to_z3(s.length)
     r = z3.Int(uid("index"))
     j = z3.Int(uid("j"))
     ej = ex.equals(s.get(j), x)
     ej = z3.BoolVal(ej) if isinstance(ej, bool) else ej
-    ex.safety(st, "index-absent", z3.Exists([j], z3.And(j >= 0, j < nz, ej)), node)
+    present = z3.Exists([j], z3.And(j >= 0, j < nz, ej))
+    if is_z3(x):
+        # the searched value is known to occur (it was obtained as max/min of this very sequence): name the witness
+        for (ws, ww) in ex.const_cache.get(("witness", x.get_id()), []):
+            if ws is s or ws is lst.v:
+                present = z3.Or(present, z3.And(ww >= 0, ww < nz, to_z3(s.get(ww)) == x))
+    ex.safety(st, "index-absent", present, node)
     er = ex.equals(s.get(r), x)
     st.pc.append(z3.And(r >= 0, r < nz, er if not isinstance(er, bool) else z3.BoolVal(er)))
     st.pc.append(z3.ForAll([j], z3.Implies(z3.And(j >= 0, j < r), z3.Not(ej))))
